@@ -2,6 +2,7 @@ package symex
 
 import (
 	"fmt"
+	"strconv"
 	"strings"
 	"go/token"
 	"go/types"
@@ -342,7 +343,42 @@ func (m *Machine) optIntChecked(fr *frame, v ssa.Value, def, limit int, what str
 
 // ---------- strings ----------
 
+// absBytes renders an abstract bech32 string as bytes: prefix and separator concrete, one character per 5-bit
+// group through the real charset table, the six checksum characters as an uninterpreted function of the data.
+func (m *Machine) absBytes(s StrVal) []*smt.Term {
+	a := s.Abs
+	if a == nil || !strings.HasPrefix(a.Ctor, "bech32:") || m.IntMode() {
+		m.unsupported("bytes of an abstract %s string", a.Ctor)
+	}
+	const charset = "qpzry9x8gf2tvdw0s3jn54khce6mua7l"
+	out := []*smt.Term{}
+	for i := 0; i < len(a.Hrp); i++ {
+		out = append(out, m.mkByte(a.Hrp[i]))
+	}
+	out = append(out, m.mkByte('1'))
+	tbl := make([]Value, 32)
+	for i := range tbl {
+		tbl[i] = m.mkByte(charset[i])
+	}
+	for _, g := range a.Args {
+		if g.IsConst() {
+			out = append(out, m.mkByte(charset[g.BigVal().Uint64()&31]))
+			continue
+		}
+		v, _ := m.muxLoad(tbl, 0, 32, smt.Extract(g, 4, 0))
+		out = append(out, v.(*smt.Term))
+	}
+	chk := smt.App("bech32_checksum_"+a.Hrp+"_"+strconv.Itoa(len(a.Args)), smt.BV(48), smt.Concat(a.Args...))
+	for i := 0; i < 6; i++ {
+		out = append(out, smt.Extract(chk, 47-8*i, 40-8*i))
+	}
+	return out
+}
+
 func (m *Machine) strByte(s StrVal, i int) *smt.Term {
+	if s.Abs != nil {
+		return m.absBytes(s)[i]
+	}
 	if s.B != nil {
 		return s.B[i]
 	}
@@ -350,6 +386,9 @@ func (m *Machine) strByte(s StrVal, i int) *smt.Term {
 }
 
 func (m *Machine) strBytes(s StrVal) []*smt.Term {
+	if s.Abs != nil {
+		return m.absBytes(s)
+	}
 	if s.B != nil {
 		return s.B
 	}
